@@ -58,7 +58,7 @@ Section CellIndex.
     if area_col_mask a x || area_row_mask a y then None else Some (area_row a y, area_col a x).
 
   (* ---------------------------------------------------------------- grid.get_linesample *)
-  (* [toZ] is np.floor in the code (fix 3e7b1916); the former code had plain truncation. *)
+  (* [toZ] is np.floor in the code (after the `fix: floor instead of truncation` commit); the former code truncated. *)
   Definition grid_col_with (toZ : T -> Z) (a : area T) (x : T) : Z :=
     to_int 32 toZ (add OP (pixel_offset_x OP a) (div OP x (pixel_size_x OP a))).
   Definition grid_row_with (toZ : T -> Z) (a : area T) (y : T) : Z :=
